@@ -128,6 +128,33 @@ def relations(rng, tier, rpt):
         back = Bip32PathParser.Parse(po.ToStr())
         if back.ToList() != po.ToList() or back.IsAbsolute() != po.IsAbsolute():
             rep("parse(print(p)) != p", po.ToStr(), str(back.ToList()), str(po.ToList()))
+    # derived objects are independent of each other and of later changes to their siblings: converting one child to public-only must not
+    # change what the parent hands out next, and "p then q" keeps working through an index whose child was converted
+    from bip_utils import Bip32KholawEd25519
+    for i in range(8 if tier == "quick" else 200):
+        c = ("secp256k1", "nist256p1", "ed25519", "kholaw")[i % 4]
+        cls = CLS[c] if c in CLS else Bip32KholawEd25519
+        hard = c == "ed25519"
+        m = cls.FromSeed(rand_seed(rng)[:32].ljust(32, b"\x01"))
+        i1 = rand_index(rng, True if hard else None)
+        i2 = rand_index(rng, True)
+        ref = node_out(m.ChildKey(i1).ChildKey(i2))
+        ch = m.ChildKey(i1)
+        ch.ConvertToPublic()                       # the caller neuters ITS child object
+        n += 1
+        again = m.ChildKey(i1)
+        if again.IsPublicOnly():
+            rep("converting a derived child to public-only changed what the parent derives for the same index", "%s idx=%d" % (c, i1), "public-only", "private child")
+        for what, f in (("ChildKey chain", lambda: m.ChildKey(i1).ChildKey(i2)), ("DerivePath", lambda: m.DerivePath(Bip32Path([i1, i2], False)))):
+            try:
+                got = node_out(f())
+            except Exception as ex:  # noqa
+                got = type(ex).__name__
+            if got != ref:
+                rep("p then q through an index whose child object was converted to public-only differs (%s)" % what, "%s %d/%d" % (c, i1, i2), got, ref)
+        two = m.ChildKey(i1)
+        if two is again:
+            rep("two derivations of the same index return the same object (changes to one affect the other)", "%s idx=%d" % (c, i1), "same object", "independent objects")
     # the same clauses for the Substrate wrapper (junction paths): parent object (key and path) unchanged by derivation, siblings
     # independent of each other, p then q == p++q == chain of single junctions (keys and reported paths)
     from bip_utils import Substrate, SubstrateCoins, SubstratePath, SubstratePathElem
